@@ -189,7 +189,8 @@ Qed.
 Definition elem : parser Item :=
   fun i => do i, _ <- opt (p_blank lf) i ;; do i, it <- p_item lf df i ;; do i, _ <- opt (p_blank lf) i ;; POk i it.
 Lemma p_file_eq input : p_file lf df input =
-  (do remain, items <- many_till lf elem eof input ;; POk remain (mkFile (package_of (fst items)) (fst items))).
+  (do input, _ <- opt (p_blank lf) input ;; do remain, items <- many_till lf elem eof input ;;
+   POk remain (mkFile (package_of (fst items)) (fst items))).
 Proof. reflexivity. Qed.
 
 Lemma item_head (g : byte -> bool) it k : (forall b, is_alpha b = true -> g b = true) -> hd_sat g (pr_item it k) = true.
@@ -216,46 +217,40 @@ Qed.
 Lemma eof_err (T : list byte) : 0 < length T -> is_perr (eof T).
 Proof. destruct T; cbn [length eof]; [lia|intros _; exact I]. Qed.
 
-Lemma items_loop : forall l b0 fuel, wf_blank b0 = true -> (l = [] -> b0 = []) -> wf_items l = true ->
-  sfx (pr_blank b0 (pr_items l [])) whole -> length (pr_blank b0 (pr_items l [])) < fuel ->
-  many_till fuel elem eof (pr_blank b0 (pr_items l [])) = POk [] (erase_items l, []).
+Lemma items_loop : forall l fuel, wf_items l = true -> sfx (pr_items l []) whole -> length (pr_items l []) < fuel ->
+  many_till fuel elem eof (pr_items l []) = POk [] (erase_items l, []).
 Proof.
-  induction l as [|[it b] rest IH]; intros b0 fuel Hb0 Hnil Hw S Hf; (destruct fuel as [|fu]; [lia|]).
-  - rewrite (Hnil eq_refl). reflexivity.
-  - cbn [pr_items wf_items erase_items map fst] in *. bsplit Hw.
-    remember (pr_items rest []) as R eqn:ER.
-    set (eofi := is_nil rest && is_nil b).
-    assert (NR : nb R = true) by (subst R; apply items_head; intros c Hc; apply stop_nb with (k := [c]); cbn; now apply alpha_stop).
-    assert (Wit : wf_item eofi it = true) by assumption.
-    assert (Fo : item_follow eofi it (pr_blank b R)).
-    { unfold item_follow, eofi. repeat split.
-      - intros E. apply andb_prop in E. destruct E as [E1 E2]. destruct rest; [|discriminate]. destruct b; [|discriminate]. subst R. reflexivity.
-      - unfold nosep. eapply blank_then_e; eauto with bsdb. intros _. subst R. apply items_head. intros c Hc.
-        apply stop_nosep with (k := [c]). cbn. now apply alpha_stop.
-      - intros E. match goal with H : negb (item_open it) || is_nil b = true |- _ => rewrite E in H; cbn [negb orb] in H end.
-        destruct b; [|discriminate]. cbn [pr_blank]. subst R. apply items_head. apply alpha_stop.
-      - intros E. destruct b as [|a0 b].
-        + match goal with H : is_nil rest || negb (item_ends_word it && is_nil []) = true |- _ => rewrite E in H; cbn in H; rewrite orb_false_r in H end.
-          destruct rest; [|discriminate]. subst R. reflexivity.
-        + unfold wstop. eapply blank_then_e; eauto with bsdb. discriminate. }
-    assert (EB : exists o, opt (p_blank lf) (pr_blank b R) = POk R o).
-    { apply (oblank_e lf whole Hlf (is_nil rest)); auto; [|sfx_of S]. intros E. destruct rest; [|discriminate]. subst R. reflexivity. }
-    destruct EB as [ob EB].
-    assert (E1 : elem (pr_blank b0 (pr_item it (pr_blank b R))) = POk R (erase_item it)).
-    { unfold elem. destruct (oblank lf whole Hlf b0 (pr_item it (pr_blank b R)) Hb0) as [o0 ->]; [|exact S|].
-      - apply item_head. intros c Hc. apply stop_nb with (k := [c]). cbn. now apply alpha_stop.
-      - cbn [pbind]. rewrite (rt_item eofi it (pr_blank b R) Wit Fo) by (sfx_of S). cbn [pbind]. rewrite EB. reflexivity. }
-    assert (L : length R < length (pr_blank b0 (pr_item it (pr_blank b R)))).
-    { pose proof (len_blank b0 (pr_item it (pr_blank b R))) as L1. pose proof (len_item it (pr_blank b R)) as L2.
-      pose proof (len_blank b R) as L3. clear - L1 L2 L3. lia. }
-    cbn [many_till].
-    assert (Eeof : is_perr (eof (pr_blank b0 (pr_item it (pr_blank b R))))) by (apply eof_err; clear - L; lia).
-    destruct (eof (pr_blank b0 (pr_item it (pr_blank b R)))); cbn in Eeof; try contradiction.
-    rewrite E1. rewrite (same_len_shorter _ _ L).
-    assert (SR : sfx (pr_blank [] R) whole) by (cbn [pr_blank]; sfx_of S).
-    assert (LR : length (pr_blank [] R) < fu) by (cbn [pr_blank]; clear - L Hf; lia).
-    change R with (pr_blank [] R) at 1.
-    rewrite (IH [] fu eq_refl ltac:(reflexivity) ltac:(assumption) SR LR). reflexivity.
+  induction l as [|[it b] rest IH]; intros fuel Hw S Hf; (destruct fuel as [|fu]; [lia|]); [reflexivity|].
+  cbn [pr_items wf_items erase_items map fst] in *. bsplit Hw.
+  remember (pr_items rest []) as R eqn:ER.
+  set (eofi := is_nil rest && is_nil b).
+  assert (NR : nb R = true) by (subst R; apply items_head; intros c Hc; apply stop_nb with (k := [c]); cbn; now apply alpha_stop).
+  assert (Wit : wf_item eofi it = true) by assumption.
+  assert (Fo : item_follow eofi it (pr_blank b R)).
+  { unfold item_follow, eofi. repeat split.
+    - intros E. apply andb_prop in E. destruct E as [E1 E2]. destruct rest; [|discriminate]. destruct b; [|discriminate]. subst R. reflexivity.
+    - unfold nosep. eapply blank_then_e; eauto with bsdb. intros _. subst R. apply items_head. intros c Hc.
+      apply stop_nosep with (k := [c]). cbn. now apply alpha_stop.
+    - intros E. match goal with H : negb (item_open it) || is_nil b = true |- _ => rewrite E in H; cbn [negb orb] in H end.
+      destruct b; [|discriminate]. cbn [pr_blank]. subst R. apply items_head. apply alpha_stop.
+    - intros E. destruct b as [|a0 b].
+      + match goal with H : is_nil rest || negb (item_ends_word it && is_nil []) = true |- _ => rewrite E in H; cbn in H; rewrite orb_false_r in H end.
+        destruct rest; [|discriminate]. subst R. reflexivity.
+      + unfold wstop. eapply blank_then_e; eauto with bsdb. discriminate. }
+  assert (EB : exists o, opt (p_blank lf) (pr_blank b R) = POk R o).
+  { apply (oblank_e lf whole Hlf (is_nil rest)); auto; [|sfx_of S]. intros E. destruct rest; [|discriminate]. subst R. reflexivity. }
+  destruct EB as [ob EB].
+  assert (E1 : elem (pr_item it (pr_blank b R)) = POk R (erase_item it)).
+  { unfold elem. rewrite (opt_err (p_blank lf)).
+    - cbn [pbind]. rewrite (rt_item eofi it (pr_blank b R) Wit Fo S). cbn [pbind]. rewrite EB. reflexivity.
+    - apply blank_err, item_head. intros c Hc. apply stop_nb with (k := [c]). cbn. now apply alpha_stop. }
+  assert (L : length R < length (pr_item it (pr_blank b R))).
+  { pose proof (len_item it (pr_blank b R)) as L2. pose proof (len_blank b R) as L3. clear - L2 L3. lia. }
+  cbn [many_till].
+  assert (Eeof : is_perr (eof (pr_item it (pr_blank b R)))) by (apply eof_err; clear - L; lia).
+  destruct (eof (pr_item it (pr_blank b R))); cbn in Eeof; try contradiction.
+  rewrite E1. rewrite (same_len_shorter _ _ L).
+  rewrite (IH fu ltac:(assumption)); [reflexivity|sfx_of S|clear - L Hf; lia].
 Qed.
 
 End File.
@@ -267,12 +262,17 @@ Proof.
   assert (Hlf : length s < S (length s)) by lia.
   rewrite (p_file_eq (S (length s)) (S (length s))).
   unfold wf_file in Hw. bsplit Hw.
-  assert (E : many_till (S (length s)) (elem (S (length s)) (S (length s))) eof s = POk [] (erase_items (fl_items c), [])).
-  { apply (items_loop (S (length s)) s Hlf (S (length s)) Hlf (fl_items c) (fl_b0 c) (S (length s))); auto.
-    - intros E. match goal with H : negb (is_nil (fl_items c)) || is_nil (fl_b0 c) = true |- _ => rewrite E in H; cbn in H end.
-      destruct (fl_b0 c); [reflexivity|discriminate].
-    - apply sfx_refl. }
-  rewrite E. cbn [pbind fst]. unfold erase_file. now rewrite package_of_eq.
+  assert (NI : nb (pr_items (fl_items c) []) = true).
+  { apply items_head. intros b Hb. apply stop_nb with (k := [b]). cbn. now apply alpha_stop. }
+  assert (E0 : exists o, opt (p_blank (S (length s))) s = POk (pr_items (fl_items c) []) o).
+  { apply (oblank_e (S (length s)) s Hlf (is_nil (fl_items c))); auto; [|apply sfx_refl].
+    intros E. destruct (fl_items c); [reflexivity|discriminate]. }
+  destruct E0 as [o0 E0]. rewrite E0. cbn [pbind].
+  assert (SI : sfx (pr_items (fl_items c) []) s) by (unfold s, pr_file; sfx_step; apply sfx_refl).
+  assert (LI : length (pr_items (fl_items c) []) < S (length s)).
+  { pose proof (len_blank (fl_b0 c) (pr_items (fl_items c) [])) as L. unfold s, pr_file. clear - L. lia. }
+  rewrite (items_loop (S (length s)) s Hlf (S (length s)) Hlf (fl_items c) (S (length s)) ltac:(assumption) SI LI).
+  cbn [pbind fst]. unfold erase_file. now rewrite package_of_eq.
 Qed.
 
 Corollary layout_free_file c1 c2 : wf_file c1 = true -> wf_file c2 = true -> erase_file c1 = erase_file c2 ->
@@ -306,10 +306,12 @@ Example roundtrip_file_example :
   file_package (erase_file example_file) = Some [txt "pkg"] /\ length (file_items (erase_file example_file)) = 11.
 Proof. vm_compute. repeat split. Qed.
 
-(* the empty document has exactly one layout the parser reads: the empty text (see FINDINGS.md, F-15b) *)
-Example blank_only_file_rejected :
-  wf_file (mkCFile [BWs (txt " ")] []) = false /\
-  parse_file (txt " ") = PErr (txt "") KSatisfy /\ parse_file [] = POk [] (mkFile None []).
+(* every layout of the document without declarations is read: blanks only, including an unterminated final line comment
+   (rejected before /repo 25b7876: finding F-15b, fixed) *)
+Example blank_only_file_accepted :
+  let c := mkCFile [BWs (txt " "); BBlock (txt "licence"); BWs [x0a]; BHash (txt " no newline after this comment")] [] in
+  wf_file c = true /\ parse_file (pr_file c []) = POk [] (mkFile None []) /\
+  parse_file (txt " ") = POk [] (mkFile None []) /\ parse_file [] = POk [] (mkFile None []).
 Proof. vm_compute. repeat split. Qed.
 
 (* identifiers that merely begin with a keyword, each in a position where the parser tries that keyword first: the
